@@ -206,6 +206,7 @@ type faultResult struct {
 	Recovered   map[string]bool  `json:"fired_after_faults"`
 	WaitOK      bool             `json:"wait_returned"`
 	Hung        string           `json:"hung,omitempty"`
+	StateDiff   []string         `json:"state_differs,omitempty"` // jobs whose Suspended flag is not what the successful calls imply
 	LoopCalls   int              `json:"loop_calls"`
 	DurationMs  int64            `json:"duration_ms"`
 	TokenEvents int              `json:"token_events"`
@@ -239,6 +240,7 @@ func runFault(id int, plan faultPlan, seed int) faultResult {
 	}
 	var apis []apiRec
 	var lastErr error
+	sawInjected := false
 	// which jobs the caller has every reason to believe are active: a call that returned an error changed nothing
 	active := map[string]bool{}
 	api := func(name string, f func() error) {
@@ -255,6 +257,9 @@ func runFault(id int, plan faultPlan, seed int) faultResult {
 		}
 		r := apiRec{Seq: seq, Name: name, Started: s.IsStarted(), TookMs: int64(time.Since(t0) / time.Millisecond)}
 		lastErr = err
+		if err != nil && errors.Is(err, errInjected) {
+			sawInjected = true
+		}
 		switch {
 		case err == nil:
 			r.Err = "nil"
@@ -281,6 +286,9 @@ func runFault(id int, plan faultPlan, seed int) faultResult {
 		}
 	}
 	resume := func(k string) {
+		if on, known := active[k]; known && on {
+			return // the pause before did not succeed: the caller has no reason to resume an active job
+		}
 		api("ResumeJob", func() error { return s.ResumeJob(quartz.NewJobKey(k)) })
 		if lastErr == nil {
 			active[k] = true
@@ -321,7 +329,7 @@ func runFault(id int, plan faultPlan, seed int) faultResult {
 		resume("d")
 		del("nope")
 		ms(80)
-		if plan.Kind == "single" && plan.Method != "Clear" && plan.Index%2 == 1 {
+		if plan.Kind == "single" && plan.Method != "Clear" && (plan.Index%2 == 1 || sawInjected) {
 			// in half of the single-fault runs the jobs scheduled first stay until the end
 			api("GetJobKeys", func() error { _, err := s.GetJobKeys(); return err })
 		} else {
@@ -346,6 +354,14 @@ func runFault(id int, plan faultPlan, seed int) faultResult {
 			k := j.JobDetail().JobKey().Name()
 			if active[k] && k != "c" {
 				stored[k] = true
+			}
+		}
+	}
+	if js, err := q.inner.ScheduledJobs(nil); err == nil {
+		for _, j := range js {
+			k := j.JobDetail().JobKey().Name()
+			if on, known := active[k]; known && j.JobDetail().Options().Suspended == on {
+				res.StateDiff = append(res.StateDiff, k)
 			}
 		}
 	}
